@@ -4,7 +4,7 @@
    showing that the hypotheses are satisfiable.                                               *)
 From Coq Require Import ZArith Reals List Permutation.
 From FF Require Import Base.Ops Inst.RInst Base.RAlg Model.Numeric Model.Superop Model.Tie.C15
-                       Proofs.SuperopAlg Proofs.Superop Proofs.SuperopEx Proofs.SuperopEncl.
+                       Proofs.SuperopAlg Proofs.Superop Proofs.SuperopEx Proofs.SuperopEncl Proofs.SuperopIdx.
 Import ListNotations.
 Local Open Scope R_scope.
 
@@ -89,11 +89,11 @@ Theorem C15_ggm_path_eq_generic : forall d U,
   liouville_closed RO d U (ggm_basis RO d) = liouville_generic RO d U (ggm_basis RO d).
 Proof. exact ggm_path_eq_generic. Qed.
 Print Assumptions C15_ggm_path_eq_generic.
-(* PARTIAL (bounded): the index arrays as the source computes them (np.repeat / the closed formula for k)
-   give the pair list of the model for every d < 64; full statement kept as a definition *)
-Definition C15_ggm_index_full : Prop := forall d, ggm_pairs_src d = ggm_pairs d.
-Theorem C15_ggm_index_partial : forall d, (d < 64)%nat -> ggm_pairs_src d = ggm_pairs d.
-Proof. exact ggm_pairs_src_ok. Qed.
+(* the index arrays as the source computes them (np.repeat / the closed formula for k) give the pair list of the
+   model, for every d *)
+Theorem C15_ggm_index_full : forall d, ggm_pairs_src d = ggm_pairs d.
+Proof. exact ggm_pairs_src_eq. Qed.
+Print Assumptions C15_ggm_index_full.
 (* EVERY path, no hypothesis on labels: the path switch of the model computes the comparison with Basis.ggm(d)
    itself; the result differs from the generic expansion by at most eps d^3 |U^dagger C_i U|_1 (entrywise l1 norm),
    and is the generic expansion itself whenever the guard fails *)
